@@ -17,15 +17,20 @@ DRIVE_TYPES = ["document", "presentation", "spreadsheets"]
 
 
 def is_amp_url(url):
-    splitted = safe_urlsplit(url)
+    try:
+        splitted = safe_urlsplit(url)
+    except ValueError:
+        return False
 
-    if splitted.hostname.endswith(".ampproject.org"):
+    hostname = splitted.hostname or ""
+
+    if hostname.endswith(".ampproject.org"):
         return True
 
-    if splitted.hostname.startswith("amp-"):
+    if hostname.startswith("amp-"):
         return True
 
-    if splitted.hostname.startswith("amp."):
+    if hostname.startswith("amp."):
         return True
 
     if "/amp/" in splitted.path:
@@ -41,7 +46,10 @@ def is_amp_url(url):
 
 
 def is_google_link(url):
-    splitted = safe_urlsplit(url)
+    try:
+        splitted = safe_urlsplit(url)
+    except ValueError:
+        return False
 
     if not splitted.hostname or "google." not in splitted.hostname:
         return False
@@ -129,7 +137,10 @@ class GoogleDrivePublicLink(GoogleDriveParsedItem):
 
 
 def parse_google_drive_url(url):
-    splitted = safe_urlsplit(url)
+    try:
+        splitted = safe_urlsplit(url)
+    except ValueError:
+        return None
 
     if "docs.google.com" not in splitted.netloc:
         return None
@@ -148,7 +159,7 @@ def parse_google_drive_url(url):
         return None
 
     if path[-1] == "pub":
-        if path[2] != "e":
+        if path[2] != "e" or len(path) < 5:
             return None
 
         return GoogleDrivePublicLink(drive_type, path[3])
